@@ -128,9 +128,16 @@ def noisy_cases(ctx, n):
                      "2026 09 29 12:00:01 worker started\n", "\x80\n", "store: entries hits misses 3 0 0\n",
                      "cache 1 0 0\n"])
         o = {"verbose": rng.choice([0, 1, 2]), "processes": rng.choice([2, 3])}
-        if rng.random() < 0.35:
+        if rng.random() < 0.35 or i % 5 == 0:
             # a failing test whose captured stderr looks like a report header (shown in its report under --buffer)
-            bad_tests = [t for t in w["tests"] if t["kind"] in ("fail", "error")]
+            bad_tests = [t for t in w["tests"] if t["kind"] in ("fail", "error") and w["layers"][t["layer"]]["kind"] != "unit"]
+            if not bad_tests and i % 5 == 0:
+                cand = [t for t in w["tests"] if w["layers"][t["layer"]]["kind"] != "unit" and not t.get("doctest")]
+                if cand:
+                    cand[0]["body"]["exc"] = "fail"
+                    cand[0]["kind"] = "fail"
+                    cand[0]["expectFail"] = False
+                    bad_tests = [cand[0]]
             if bad_tests:
                 rng.choice(bad_tests)["body"]["stderr_text"] = rng.choice(["7 0 0\n", "1 0 0\n", "12 0 0 \n"])
                 o["buffer"] = True
